@@ -61,7 +61,7 @@ theorem c11_gap_counterexample :
     roundsOf x.s.sent = [1, 2, 4] ∧ x.s.queue = [] ∧ x.store.get 3 = .ok (tb 3) ∧ x.s.attached = true := by decide
 
 /-- the same with the append between the closing of the cursor and `AddCallback` -/
-theorem c11_gap_counterexample' :
+theorem c11_gap_counterexample_after_scan :
     let x := Sys.run .asIs ⟨boltOf 2, { frm := 2 }⟩ [.start, .scanOpen, .scanNext, .put (tb 3), .register, .put (tb 4), .deliver]
     roundsOf x.s.sent = [2, 4] ∧ x.s.queue = [] ∧ x.store.get 3 = .ok (tb 3) := by decide
 
